@@ -8,7 +8,7 @@ open Conv
 open GuardsCheck
 open Guards_conv
 
-let run (path : string) =
+let run_gen ~(xmode : bool) (path : string) =
   let lines = read_lines path in
   let cases = ref 0 and steps = ref 0 and nontrivial = ref 0 in
   let exercised : (string, unit) Hashtbl.t = Hashtbl.create 64 in
@@ -16,6 +16,9 @@ let run (path : string) =
   let other_owner_seen : (string, unit) Hashtbl.t = Hashtbl.create 64 in
   let collide_seen : (string, unit) Hashtbl.t = Hashtbl.create 64 in
   let focused = ref false in
+  let changed_ok_seen : (string, unit) Hashtbl.t = Hashtbl.create 64 in
+  let other_signer_seen : (string, unit) Hashtbl.t = Hashtbl.create 64 in
+  let notes = ref 0 in
   L.iter (fun line ->
       match tokens line with
       | "case" :: id :: "pos" :: handler :: names :: si :: nok :: owner_cls :: cls :: kind :: changed :: oi :: has_pos :: coll :: vchanged :: [] ->
@@ -55,6 +58,43 @@ let run (path : string) =
           predfail ~case:id ~step:1 ~pred:"holds_C12_owner" ~kf:"none"
             ~detail:(Printf.sprintf "%s_owner=%s_signer=%s_cls=%s_changed=%s_victim_changed=%s_signer_owns_same_id_of_other_kind=%s" handler oi si cls
                        (tok_of_bool changed) (tok_of_bool vchanged) (tok_of_bool coll))
+      | "case" :: id :: "posx" :: handler :: variant :: state :: si :: nok :: owner_cls :: cls :: kind :: changed :: oi :: has_pos :: vchanged :: bchanged :: [] ->
+        (* extended matrix: unhealthy positions, running auctions of both generations, shutdown state *)
+        incr cases; incr steps;
+        let h = coq_of_string handler in
+        let is_owner = (si = "0") and ok = (cls = "ok") and changed = bool_of_tok changed in
+        let has_pos = bool_of_tok has_pos and vchanged = bool_of_tok vchanged and bchanged = bool_of_tok bchanged in
+        ignore state;
+        bump ("posx:" ^ handler ^ "/" ^ variant ^ ":" ^ (if is_owner then "named-owner" else if has_pos then "other-owner" else "stranger") ^ ":" ^ cls ^ ":" ^ kind
+              ^ (if vchanged then ":named-owner-changed" else "") ^ (if bchanged then ":bystander-changed" else ""));
+        Hashtbl.replace distinct (Digest.string (handler ^ variant ^ oi ^ si ^ nok ^ cls)) ();
+        Hashtbl.replace exercised handler ();
+        if is_owner && ok then Hashtbl.replace owner_ok_seen handler ();
+        if is_owner && ok && changed then Hashtbl.replace changed_ok_seen handler ();
+        if not is_owner then Hashtbl.replace other_signer_seen handler ();
+        if (not is_owner) && has_pos then Hashtbl.replace other_owner_seen handler ();
+        if not (handler_known h) then
+          mismatch ~case:id ~step:1 ~field:("handler-row:" ^ handler) ~model:"absent" ~impl:"present"
+        else begin
+          if (not is_owner) && owner_cls = "ok" then begin
+            let pred = kind_of_code (predict nonowner_ctx h) in
+            if handler_position_msg h && not (handler_signer_keyed h) then begin
+              if pred = "ok" then mismatch ~case:id ~step:1 ~field:("predict-nonowner:" ^ handler) ~model:"ok" ~impl:cls
+              else if ok then mismatch ~case:id ~step:1 ~field:("nonowner-class:" ^ handler) ~model:pred ~impl:"ok"
+            end else if not (handler_position_msg h) then begin
+              (* no owner concept in the table: a funded signer gets what the named owner gets *)
+              if pred = "unauth" then mismatch ~case:id ~step:1 ~field:("predict-nonowner:" ^ handler) ~model:"unauth" ~impl:cls
+              else if not ok then bump ("posx:permissionless-but-other-signer-fails:" ^ handler ^ ":" ^ kind)
+            end
+          end;
+          if not is_owner then incr nontrivial
+        end;
+        if cls = "panic" then bump ("posx:panic:" ^ handler);
+        if not (holds_C12_x h is_owner has_pos ok changed vchanged bchanged) then
+          predfail ~case:id ~step:1 ~pred:"holds_C12_x" ~kf:"none"
+            ~detail:(Printf.sprintf "%s/%s_owner=%s_signer=%s_cls=%s_changed=%s_named-owner-changed=%s_bystander-changed=%s" handler variant oi si cls
+                       (tok_of_bool changed) (tok_of_bool vchanged) (tok_of_bool bchanged))
+      | "#" :: "fixture-note" :: _ -> incr notes
       | "case" :: id :: "wasm" :: variant :: chain :: sender :: accepted :: cls :: changed :: [] ->
         incr cases; incr steps;
         let accepted = bool_of_tok accepted and changed = bool_of_tok changed in
@@ -70,6 +110,27 @@ let run (path : string) =
         if not (holds_C12_wasm v c s accepted changed) then
           predfail ~case:id ~step:1 ~pred:"holds_C12_wasm" ~kf:"none"
             ~detail:(Printf.sprintf "%s_%s_%s_accepted=%s_changed=%s" variant chain sender (tok_of_bool accepted) (tok_of_bool changed))
+      | "case" :: id :: "wasmx" :: variant :: chain :: sender :: accepted :: cls :: changed :: dirty :: real :: [] ->
+        (* custom messages with payloads that have an effect on the extended state: the sender guard as above, and
+           a message the ladder rejects leaves no trace even on the (uncommitted) branch it ran on *)
+        incr cases; incr steps;
+        let accepted = bool_of_tok accepted and changed = bool_of_tok changed and dirty = bool_of_tok dirty in
+        bump ("wasmx:" ^ chain ^ ":" ^ (if accepted then "accepted" else "rejected") ^ ":" ^ cls ^ (if changed then ":effect" else ":no-effect"));
+        Hashtbl.replace distinct (Digest.string ("x" ^ variant ^ chain ^ sender)) ();
+        let v = coq_of_string variant and c = coq_of_string chain and sd = coq_of_string sender in
+        (match wasm_model_accepts v c sd with
+         | None -> mismatch ~case:id ~step:1 ~field:("wasm-row:" ^ variant) ~model:"absent" ~impl:"present"
+         | Some m ->
+           if m <> accepted then
+             mismatch ~case:id ~step:1 ~field:("wasm-ladder:" ^ variant ^ ":" ^ chain) ~model:(tok_of_bool m) ~impl:(tok_of_bool accepted);
+           if (not m) && dirty then
+             mismatch ~case:id ~step:1 ~field:("wasm-ladder-before-writes:" ^ variant ^ ":" ^ chain) ~model:"branch-untouched" ~impl:"written";
+           if not m then incr nontrivial);
+        if accepted && cls = "ok" && changed && real = "1" then Hashtbl.replace changed_ok_seen ("wasm:" ^ variant) ();
+        Hashtbl.replace exercised ("wasm:" ^ variant) ();
+        if not (holds_C12_wasm v c sd accepted changed) then
+          predfail ~case:id ~step:1 ~pred:"holds_C12_wasm" ~kf:"none"
+            ~detail:(Printf.sprintf "%s_%s_%s_accepted=%s_changed=%s_with-effect-payload" variant chain sender (tok_of_bool accepted) (tok_of_bool changed))
       | "case" :: id :: "kill" :: is_admin :: enable :: cls :: kind :: changed :: [] ->
         incr cases; incr steps;
         let is_admin = bool_of_tok is_admin and ok = (cls = "ok") and changed = bool_of_tok changed in
@@ -88,9 +149,10 @@ let run (path : string) =
       | [] -> ()
       | _ -> ()
     ) lines;
-  (* coverage: every position message of the regenerated table was exercised, and the owner's
-     run succeeded at least once (otherwise "non-owner rejected" would be vacuous) *)
-  if Sys.getenv_opt "VERIF_CASE" = None && !cases > 100 && not !focused then
+  (* coverage (plain matrix): every position message of the regenerated table was exercised, and the owner's
+     run succeeded at least once (otherwise "non-owner rejected" would be vacuous); every msgServer method
+     of the five servers was sent at all *)
+  if (not xmode) && Sys.getenv_opt "VERIF_CASE" = None && !cases > 100 && not !focused then begin
     L.iter (fun hn ->
         let n = string_of_coq hn in
         if not (Hashtbl.mem exercised n) then
@@ -103,11 +165,44 @@ let run (path : string) =
           (* misaligned ids: a signer owning a position of another kind with the same numeric id *)
           mismatch ~case:"-" ~step:0 ~field:("coverage-misaligned-ids:" ^ n) ~model:"signer-owns-same-id-of-another-kind" ~impl:"never")
       position_handler_names;
+    L.iter (fun hn ->
+        let n = string_of_coq hn in
+        if not (Hashtbl.mem exercised n) then
+          mismatch ~case:"-" ~step:0 ~field:("coverage:" ^ n) ~model:"msg-server-method-of-the-plain-matrix" ~impl:"not-exercised")
+      base_matrix_handlers
+  end;
+  (* coverage (extended matrix): every msgServer method of the liquidation / auction / esm / rewards / collector /
+     tokenmint modules (computed from the regenerated registry) was sent, succeeded WITH an effect for the named
+     owner, and was attempted by another position owner and by a stranger *)
+  if xmode && Sys.getenv_opt "VERIF_CASE" = None && !cases > 100 && not !focused then begin
+    if !notes > 0 then
+      mismatch ~case:"-" ~step:0 ~field:"fixture" ~model:"extended-fixture-complete" ~impl:(Printf.sprintf "%d-notes-in-trace" !notes);
+    L.iter (fun hn ->
+        let n = string_of_coq hn in
+        if not (Hashtbl.mem exercised n) then
+          mismatch ~case:"-" ~step:0 ~field:("coverage:" ^ n) ~model:"msg-server-method-of-the-extended-matrix" ~impl:"not-exercised"
+        else if not (Hashtbl.mem changed_ok_seen n) then
+          mismatch ~case:"-" ~step:0 ~field:("coverage-ok-with-effect:" ^ n) ~model:"named-owner-succeeds-and-state-changes" ~impl:"never"
+        else if not (Hashtbl.mem other_owner_seen n && Hashtbl.mem other_signer_seen n) then
+          mismatch ~case:"-" ~step:0 ~field:("coverage-other-signer:" ^ n) ~model:"signed-by-another-owner-and-a-stranger" ~impl:"never")
+      x_matrix_handlers;
+    (* every custom message variant of the regenerated table was sent with a payload whose accepted run changes state *)
+    L.iter (fun vn ->
+        let n = "wasm:" ^ string_of_coq vn in
+        if not (Hashtbl.mem exercised n) then
+          mismatch ~case:"-" ~step:0 ~field:("coverage:" ^ n) ~model:"custom-message-variant-with-effect-payload" ~impl:"not-sent"
+        else if not (Hashtbl.mem changed_ok_seen n) then
+          mismatch ~case:"-" ~step:0 ~field:("coverage-effect:" ^ n) ~model:"accepted-run-changes-state" ~impl:"never")
+      wasm_variant_names
+  end;
   finish ~cases:!cases ~steps:!steps ~nontrivial:!nontrivial
 
 (* runner C12-focus <ignored>: the position handlers whose regenerated row fails the C12 owner check *)
 let focus (_ : string) =
   L.iter (fun n -> print_endline ("FOCUS " ^ string_of_coq n)) c12_broken_rows
 
+let run = run_gen ~xmode:false
+let run_x = run_gen ~xmode:true
 let () = Conv.register "C12" run
+let () = Conv.register "C12X" run_x
 let () = Conv.register "C12-focus" focus
